@@ -187,6 +187,59 @@ def case_json(c):
                 op=c["op"], chunked=c["chunked"], params=c["params"], threads=bool(c.get("threads")))
 
 
+def mask_container_sweep(res, GroupBy):
+    """One fixed dataset: every operation that takes mask= is run with the same boolean mask in every container (NumPy, pandas,
+    polars, pyarrow, chunked pyarrow, pandas masked 'boolean', Arrow-backed pandas) - and, where positions are accepted, with
+    the same positions in every container and integer width - and compared with the NumPy-mask call."""
+    import polars as pl
+    import pyarrow as pa
+    k = np.array([1, 0, 1, -5, 2, 0, 1, 2])
+    v = np.array([1., np.nan, 4, 8, 16, 32, 64, 128])
+    mb = np.array([True, True, False, True, True, False, True, True])
+    pos = np.flatnonzero(mb)
+    ops = {
+        "sum": lambda gb, m: gb.sum(v, mask=m), "mean": lambda gb, m: gb.mean(v, mask=m), "size": lambda gb, m: gb.size(mask=m), "first": lambda gb, m: gb.first(v, mask=m),
+        "var": lambda gb, m: gb.var(v, mask=m), "median": lambda gb, m: gb.median(v, mask=m), "quantile": lambda gb, m: gb.quantile(v, [0.5], mask=m),
+        "agg": lambda gb, m: gb.agg(v, ["sum", "max"], mask=m), "sum_margins": lambda gb, m: gb.sum(v, mask=m, margins=True), "sum_transform": lambda gb, m: gb.sum(v, mask=m, transform=True),
+        "cumsum": lambda gb, m: gb.cumsum(v, mask=m), "cummax": lambda gb, m: gb.cummax(v, mask=m), "cumcount": lambda gb, m: gb.cumcount(mask=m),
+        "rolling_sum": lambda gb, m: gb.rolling_sum(v, 2, min_periods=1, mask=m), "rolling_max": lambda gb, m: gb.rolling_max(v, 2, min_periods=1, mask=m),
+        "shift": lambda gb, m: gb.shift(v, 1, mask=m), "diff": lambda gb, m: gb.diff(v, 1, mask=m), "ema": lambda gb, m: gb.ema(v, alpha=0.5, mask=m),
+        "head": lambda gb, m: gb.head(v, 1, mask=m), "tail": lambda gb, m: gb.tail(v, 1, mask=m), "nth": lambda gb, m: gb.nth(v, 0, mask=m),
+        "apply": lambda gb, m: gb.apply(v, np.nanmax, mask=m), "ratio": lambda gb, m: gb.ratio(v, v, mask=m), "density": lambda gb, m: gb.density(mask=m),
+    }
+
+    def canon(r):
+        if isinstance(r, (pl.Series, pl.DataFrame)):
+            r = r.to_pandas()
+        if isinstance(r, pd.DataFrame):
+            return [canon(r[c]) for c in r.columns]
+        return (list(map(str, r.index.tolist())), [None if pd.isna(x) else round(float(x), 9) for x in r.tolist()])
+
+    bool_masks = {"pandas": pd.Series(mb), "polars": pl.Series(mb), "pyarrow": pa.array(mb), "pyarrow_chunked": pa.chunked_array([pa.array(mb[:3]), pa.array(mb[3:])]),
+                  "pandas_boolean": pd.Series(mb, dtype="boolean"), "pandas_arrow": pd.Series(mb, dtype="bool[pyarrow]")}
+    pos_masks = {"pandas": pd.Series(pos), "polars": pl.Series(pos), "int32": pos.astype("int32"), "uint8": pos.astype("uint8"), "pyarrow": pa.array(pos), "index": pd.Index(pos)}
+    for name, f in ops.items():
+        def run_with(m):
+            try:
+                return canon(f(GroupBy(k), m))
+            except Exception as e:  # noqa: BLE001
+                return "raised " + type(e).__name__
+        ref_b, ref_p = run_with(mb), run_with(pos)
+        for kind, masks, ref in (("boolean", bool_masks, ref_b), ("positions", pos_masks, ref_p)):
+            for cont, m in masks.items():
+                case = dict(stream="mask-containers", op=name, mask_kind=kind, mask_container=cont)
+                res.note_case(repr(case), True)
+                res.count("mask_container", kind + ":" + cont)
+                r = run_with(m)
+                if r != ref:
+                    res.violations.append(dict(sig=dict(level="api", stream="mask-containers", what="differs-from-numpy-mask", op=name, mask_kind=kind, mask_container=cont), case=case,
+                                               observed=str(r)[:300], expected=str(ref)[:300], what=f"{name}: the {kind} mask in {cont} gives another result than the same mask as a NumPy array"))
+        if not isinstance(ref_p, str) and ref_p != ref_b:
+            case = dict(stream="mask-containers", op=name, mask_kind="positions-vs-boolean")
+            res.violations.append(dict(sig=dict(level="api", stream="mask-containers", what="positions-differ-from-boolean", op=name), case=case, observed=str(ref_p)[:300], expected=str(ref_b)[:300],
+                                       what=f"{name}: the sorted positions of a boolean mask give another result than the boolean mask"))
+
+
 def run(res, tier="quick", seed=0, widen=False):
     from groupby_lib import GroupBy
 
@@ -196,7 +249,8 @@ def run(res, tier="quick", seed=0, widen=False):
     res.rule = ("seeded random logical datasets (1-2 keys, nulls in keys and values, 2-13 rows); reductions size/count/sum/mean/min/max/first/last/var/median/agg x "
                 "masks boolean array / boolean Series / all-false / slice (negative bounds) / positions (sorted-unique, or arbitrary order with repeats and negatives); "
                 "row-aligned cumsum/cummin/cummax/cumcount/rolling_*/shift/diff/ema/timed ema x boolean masks; plain and chunk-factorized keys; each case = masked call vs "
-                "the same call on the filtered data; non-trivial = mask drops at least one row and keeps at least one; distinct = canonical case")
+                "the same call on the filtered data; plus a sweep of every maskable operation over mask containers (pandas, polars, pyarrow, chunked, masked / Arrow-backed pandas; positions in every container and integer width) against the NumPy mask; non-trivial = mask drops at least one row and keeps at least one; distinct = canonical case")
+    mask_container_sweep(res, GroupBy)
     cases = [gen_case(rng, tier, "red") for _ in range(n_red)] + [gen_case(rng, tier, "row") for _ in range(n_row)]
     # corpus: K1's witness
     cases.insert(0, dict(keycols=[[0] * 6], kinds=["int"], vals=[Fraction(x) for x in (1, 2, 3, 4, 5, 6)], mask=("b", [True, True, True, False, True, True]), mk="bool",
